@@ -33,6 +33,7 @@ type ioCase struct {
 	ErrAt    int    `json:"err_at"` // chunk index that fails with zero bytes; -1 none
 	Errno    int    `json:"errno"`
 	Salt     uint8  `json:"salt"`
+	Sock     int    `json:"sock,omitempty"` // > 0: over a real socket pair with kernel buffers of this size (else in memory)
 }
 
 type ioStats struct {
@@ -87,7 +88,13 @@ func runIOCase(c ioCase, st *ioStats) *fail {
 		return -1, nil
 	}
 	srv := p9.NewServer(fs)
-	cl, closeFn, err := dialPipe(srv, p9.WithMessageSize(c.Msize))
+	dial := dialPipe
+	if c.Sock > 0 {
+		dial = func(srv *p9.Server, opts ...p9.ClientOpt) (*p9.Client, func(), error) {
+			return dialSock(srv, c.Sock, opts...)
+		}
+	}
+	cl, closeFn, err := dial(srv, p9.WithMessageSize(c.Msize))
 	if err != nil {
 		return failf("harness-dial", "HARNESS-ERROR msize %d: %v", c.Msize, err)
 	}
@@ -258,8 +265,21 @@ func runIOCase(c ioCase, st *ioStats) *fail {
 
 func genIOCase(rt *rapid.T) ioCase {
 	lfs := p9.VerifLargestFixedSize()
+	return genIOCaseM(rt, []uint32{lfs + 1, lfs + 2, lfs + 100, 512, 1000, 4096, 65536, 1 << 20})
+}
+
+// genIOSockCase: the same over a real socket pair, with frames larger than the
+// kernel's buffers.
+func genIOSockCase(rt *rapid.T) ioCase {
+	c := genIOCaseM(rt, []uint32{4096, 65536, 200000, 1 << 20, 1 << 20, 4 << 20})
+	c.Sock = rapid.SampledFrom([]int{2048, 16384, 65536, 212992}).Draw(rt, "sockbuf")
+	return c
+}
+
+func genIOCaseM(rt *rapid.T, msizes []uint32) ioCase {
+	lfs := p9.VerifLargestFixedSize()
 	c := ioCase{ShortAt: -1, ErrAt: -1, Salt: rapid.Byte().Draw(rt, "salt"), Op: rapid.SampledFrom([]string{"read", "write"}).Draw(rt, "op")}
-	c.Msize = rapid.SampledFrom([]uint32{lfs + 1, lfs + 2, lfs + 100, 512, 1000, 4096, 65536, 1 << 20}).Draw(rt, "msize")
+	c.Msize = rapid.SampledFrom(msizes).Draw(rt, "msize")
 	c.IOUnit = rapid.SampledFrom([]uint32{0, 0, 1, 100, 512, 4096, 8192, 65536, 1 << 20, 1 << 31, 1<<32 - 1}).Draw(rt, "iounit")
 	// the client's payload size, for choosing interesting lengths only (the
 	// oracle does not depend on it)
@@ -327,6 +347,7 @@ func genIOCase(rt *rapid.T) ioCase {
 func init() {
 	replayRegistrars = append(replayRegistrars, func() {
 		registerReplay("C11/io", func(c ioCase) *fail { return runIOCase(c, nil) })
+		registerReplay("C11/io-socket", func(c ioCase) *fail { return runIOCase(c, nil) })
 		registerReplay("C11/concurrent-reads", runConcReadCase)
 	})
 }
@@ -452,6 +473,17 @@ func TestC11(t *testing.T) {
 	}, func(c concReadCase) *fail {
 		h.Case(evid.HashJSON(c), c.EOFReads > 0, "concurrent-reads")
 		return runConcReadCase(c)
+	})
+	// the same rule over a real socket pair (vectorised receive path on both
+	// peers), frames up to 4 MiB through kernel buffers of 2-208 KiB
+	rapidCases(h, "io-socket", env.PerShard(env.Pick(800, 40000)), genIOSockCase, func(c ioCase) *fail {
+		st := &ioStats{}
+		f := runIOCase(c, st)
+		h.Case(evid.HashJSON(c), int(c.Msize) > c.Sock && c.Len > c.Sock, "io-socket:"+c.Op)
+		if int(c.Msize) > c.Sock && c.Len > c.Sock && h.WantSample("io-socket") {
+			h.Sample("io-socket", c)
+		}
+		return f
 	})
 	rapidCases(h, "io", env.PerShard(env.Pick(12000, 1000000)), genIOCase, func(c ioCase) *fail {
 		st := &ioStats{}
